@@ -25,10 +25,10 @@ type Store struct {
 
 // before registers a storage call; returns (event, error to return instead of calling the driver).
 func (s *Store) before(verb, key, note string, write bool) (Event, error) {
+	arrive := s.Log.tick()
 	if g := s.Ctx.Gate; g != nil {
 		g("store", verb, key)
 	}
-	arrive := s.Log.tick()
 	s.Ctx.mu.Lock()
 	defer s.Ctx.mu.Unlock()
 	ev := Event{Op: s.Ctx.ID, Layer: "store", Verb: verb, Key: key, Note: note, Arrive: arrive}
